@@ -135,11 +135,18 @@ func (o OptSet) resultIdx(key string) (int, bool) {
 	return model.IndexOf(key, o.maxIdx())
 }
 
-// clear reports whether the way the key is split is beyond doubt: no empty
-// segment, no two overlapping occurrences of the separator ("a:::b" under
-// "::"). The statement does not say how such keys are cut, so they are not
-// generated, and an option set under which a key of the case is not clear is
-// not applied to it.
+// clear reports whether the way the key is split is beyond doubt: no two
+// overlapping occurrences of the separator ("a:::b" under "::"). The statement
+// does not say how such keys are cut, so they are not generated, and an option
+// set under which a key of the case is not clear is not applied to it.
+//
+// An empty segment is clear: the empty string is a name like any other
+// ({"a": {"": {"c": v}}} is a tree, the library stores and unpacks it
+// faithfully), joining the path a, "", c with the separator gives "a..c", and
+// "dotted form is equivalent to the corresponding nesting" leaves no other
+// reading of "a..c", ".x", "x.", "." than the paths a/""/c, ""/x, x/"", ""/"".
+// (With a separator that overlaps itself, "a::::c" under "::", the two
+// occurrences next to an empty segment overlap: not clear, by the rule above.)
 func (o OptSet) clear(key string) bool {
 	if o.Sep == "" || o.escaped(key) {
 		return true
@@ -147,11 +154,6 @@ func (o OptSet) clear(key string) bool {
 	if o.Esc && strings.ContainsAny(key, "[]") {
 		// brackets that do not enclose the whole key: not stated
 		return false
-	}
-	for _, s := range strings.Split(key, o.Sep) {
-		if s == "" {
-			return false
-		}
 	}
 	for i := 0; i+len(o.Sep) <= len(key); i++ {
 		if !strings.HasPrefix(key[i:], o.Sep) {
@@ -164,6 +166,84 @@ func (o OptSet) clear(key string) bool {
 		}
 	}
 	return true
+}
+
+// selfOverlap reports whether two occurrences of the separator can overlap
+// ("::", "..", "--"): a proper prefix of it is also a suffix. Next to an empty
+// segment such a separator is not clear.
+func selfOverlap(sep string) bool {
+	for i := 1; i < len(sep); i++ {
+		if strings.HasPrefix(sep, sep[i:]) {
+			return true
+		}
+	}
+	return false
+}
+
+// oddNames are names at the edge of the key alphabet. What the statement says
+// about each of them under a separator:
+//
+//	""                     a name like any other; next to a separator it is an empty segment
+//	blanks, " a", "a ", tab  names; nothing is trimmed (no clause says so)
+//	"+1" "-0" "00" "0x1" "010" "1_0"   integer literals in the sense of DESIGN 3 (vii)
+//	                       (strconv base 0): list indices 1, 0, 0, 1, 8, 10 unless numeric
+//	                       keys are enabled or MaxIdx is below them
+//	"-1", 2^63-1, 10^30, an Arabic-Indic digit   no index: names
+//	300 letters            a name
+//	the separators of other option sets   names (they do not contain the separator of this one)
+var oddNames = []string{
+	// (rapid prefers the front of a list: the kinds alternate, the empty name comes first and again)
+	"", " ", "+1", "A", strings.Repeat("k", 300), "-0", " a", "-", "00", "", "a ", "0x1", "  ", "-1", "010",
+	"9223372036854775807", "\t", "B", "1" + strings.Repeat("0", 30), "1_0", "\u0663", "+0",
+}
+
+// oddKeys are the oddNames and the separators of the other option sets that
+// can be used as names under o: the separator does not occur in them, and
+// written next to it on either side they are split in one clear way.
+func oddKeys(o OptSet) (names, seps []string) {
+	ok := func(k string) bool {
+		if o.Sep == "" {
+			return true
+		}
+		if strings.Contains(k, o.Sep) {
+			return false
+		}
+		if k == "" {
+			// (next to a separator that overlaps itself the empty name is kept nested, see sp.joins)
+			return true
+		}
+		j := "a" + o.Sep + k + o.Sep + k + o.Sep + "b"
+		segs := strings.Split(j, o.Sep)
+		return o.clear(j) && len(segs) == 4 && segs[1] == k && segs[2] == k
+	}
+	for _, k := range oddNames {
+		if ok(k) {
+			names = append(names, k)
+		}
+	}
+	seen := map[string]bool{"-": true, " ": true}
+	for _, s := range separators {
+		if !seen[s] && s != o.Sep && ok(s) {
+			seps = append(seps, s)
+		}
+		seen[s] = true
+	}
+	return names, seps
+}
+
+// drawOdd draws the odd part of the key alphabet of one case: the empty name
+// and three of oddKeys (one in four a separator of another option set).
+func drawOdd(t *rapid.T, o OptSet) []string {
+	names, seps := oddKeys(o)
+	out := []string{""}
+	for i := 0; i < 3; i++ {
+		from := names
+		if len(seps) > 0 && rapid.IntRange(0, 3).Draw(t, "oddkind") == 3 {
+			from = seps
+		}
+		out = append(out, rapid.SampledFrom(from).Draw(t, "oddkey"))
+	}
+	return out
 }
 
 // separators: the documented one, other single characters (among them every
